@@ -17,7 +17,7 @@ T_BND = bytes([0x80, 0x7F, 0x80, 0x7F, 0x80, 0x7F, 0x00, 0x80, 0xFF, 0x7F, 0x80,
 TAILS = {'neg': T_NEG, 'pos': T_POS, 'zero': T_ZERO, 'ff': T_FF, 'bnd': T_BND}
 
 # SIB classes: no index (index=100), index with each scale, base=ebp (special with mod 0), eiz*2^k
-SIB_CLASSES = [0x24, 0x0C, 0x4B, 0x9E, 0xD8, 0x25, 0x65, 0xE5, 0x1D, 0x64, 0x40, 0x9B, 0x12]   # last three: base == index
+SIB_CLASSES = [0x24, 0x0C, 0x4B, 0x9E, 0xD8, 0x25, 0x65, 0xE5, 0x1D, 0x64, 0x40, 0x9B, 0x12, 0xDB]   # last four: base == index at each scale
 
 
 # bytes that are not opcodes of their map (escapes to another map, prefixes): enumerated as such elsewhere
